@@ -209,6 +209,10 @@ class ExprMixin(object):
         name = n['name']
         if name.startswith('template '):
             name = name[len('template '):].strip()
+        if isinstance(base, PtrSlot) and not n.get('isArrow') and name in ('reset', 'get', 'release'):
+            bm = BoundMethod(base, name, n)
+            bm.smart = True          # member of the smart pointer itself, not of the pointee
+            return bm
         v = self.field_of(base, name, n)
         if isinstance(v, BoundMethod) and v.targs is None and re.search(r'<[^<>]*>\s*$', src_text(n) or ''):
             v.targs = self.template_args(n)
@@ -222,6 +226,10 @@ class ExprMixin(object):
             if '::' in txt:
                 return self.qualified_name(txt, n)
         base = self.ev(inner[0]) if inner else self.frame.this
+        if isinstance(base, PtrSlot) and not n.get('isArrow') and n['member'] in ('reset', 'get', 'release'):
+            bm = BoundMethod(base, n['member'], n)
+            bm.smart = True
+            return bm
         v = self.field_of(base, n['member'], n)
         if isinstance(v, BoundMethod) and n.get('explicitTemplateArgs') is not None:
             v.targs = self.template_args(n)
@@ -426,6 +434,8 @@ class ExprMixin(object):
             fail(n, 'pointer operator %s' % op)
 
         def desc(p):
+            if isinstance(p, Obj):
+                return E.const(False), p, None          # `this` / address of a known object
             if isinstance(p, PtrV):
                 return p.null, p.target, None
             return p.null(), p.target, p
@@ -577,6 +587,8 @@ class ExprMixin(object):
             else:
                 fail(n, 'string assigned from %s' % type(src).__name__)
             return
+        if isinstance(dst, MutexV):
+            return       # mutexes are not copyable; only reached for by-reference returns of whole objects (no data)
         if isinstance(dst, CountVec) and isinstance(src, CountVec):
             self.assign(dst.size_lv(), src.size())
             return
@@ -592,6 +604,21 @@ class ExprMixin(object):
             self.assign(dst.tag_lv(), ite(src.c, ta, tb))
             if oa is ob:
                 dst.target = oa
+            return
+        if isinstance(dst, PtrSlot) and isinstance(src, OwnedNew):
+            # the slot now owns a fresh allocation: its identity is the slot's own allocation tag (distinct from every other
+            # object's), its contents are those of the initialiser
+            own = getattr(dst, 'owned_tag', None)
+            if own is None or dst.target is None:
+                fail(n, 'owning pointer without an allocation model (owned_tag/target not set by the harness)')
+            self.assign(dst.null_lv(), False)
+            self.assign(dst.tag_lv(), own)
+            if src.init is not None:
+                if not isinstance(src.init, Obj):
+                    fail(n, 'allocation initialised from %s' % type(src.init).__name__)
+                self.copy_value(dst.target, src.init, n)
+            else:
+                self.notes.append('default-constructed allocation: contents left unspecified')
             return
         if isinstance(dst, PtrSlot):
             if isinstance(src, Obj):
@@ -716,13 +743,33 @@ class ExprMixin(object):
         return VOID
 
     def ev_CXXNewExpr(self, n):
-        fail(n, 'operator new outside the pointer route')
+        # new T(args): a fresh allocation owned by whoever stores the pointer; the value it is initialised from (copy construction
+        # from one object, or default construction) is carried along until the pointer is stored
+        init = None
+        for c in kids(n):
+            if c.get('kind') in ('CXXConstructExpr', 'CXXUnresolvedConstructExpr', 'ParenListExpr', 'InitListExpr', 'CXXTemporaryObjectExpr'):
+                args = kids(c)
+                if len(args) == 1:
+                    init = self.rd(self.ev(args[0]))
+                elif len(args) > 1:
+                    fail(n, 'operator new with several constructor arguments')
+            elif c.get('kind') not in (None,):
+                v = self.rd(self.ev(c))
+                init = v
+        return OwnedNew(init)
 
     def ev_SubstNonTypeTemplateParmExpr(self, n):
         return self.ev(kids(n)[0])
 
     def ev_UnaryExprOrTypeTraitExpr(self, n):
         fail(n, 'sizeof/alignof')
+
+
+class OwnedNew(object):
+    """result of `new T(src)` / make_unique<T>(): a fresh allocation; init is the object it is copy-constructed from (None: default)"""
+
+    def __init__(self, init):
+        self.init = init
 
 
 class CommaInit(object):
